@@ -240,6 +240,10 @@ func Suite(prop, tier string) []qx.SuiteItem {
 			Threads: [][]callSpec{{{Msgs: []msgSpec{m(0)}}, {Msgs: []msgSpec{m(1)}}}, {{Msgs: []msgSpec{m(0), m(0)}}}}, Faults: []string{"err:6", "lost", "stall"}}, b)
 		add(&WS{Name: "close-any-async", BatchSize: 2, MaxAttempts: 2, Acks: kafka.RequireOne, WriterTopic: "A", CloseAny: true, LateWrite: true, Async: true,
 			Threads: [][]callSpec{{{Msgs: []msgSpec{m(0)}}, {Msgs: []msgSpec{m(0), m(1)}}}}, Faults: []string{"err:6", "lost", "stall"}}, b)
+		// Close while a batch is between two of its (three) attempts: one message per batch, every produce answer from
+		// {ack, retriable 6, permanent 10, lost}, Close at any moment incl. inside the back-off sleeps
+		add(&WS{Name: "close-during-retries-att3", BatchSize: 1, MaxAttempts: 3, Acks: kafka.RequireOne, WriterTopic: "A", CloseAny: true, LateWrite: true,
+			Threads: [][]callSpec{{{Msgs: []msgSpec{m(0), m(1)}}}}, Faults: []string{"err:6", "err:10", "lost"}}, b)
 		add(&WS{Name: "cancel-sync", BatchSize: 3, MaxAttempts: 2, Acks: kafka.RequireOne, WriterTopic: "A", LateWrite: true,
 			Threads: [][]callSpec{{{Msgs: []msgSpec{m(0)}, Cancel: true}, {Msgs: []msgSpec{m(0)}}}, {{Msgs: []msgSpec{m(0), m(1)}, Cancel: true}}}, Faults: []string{"err:6", "stall"}}, b)
 		add(&WS{Name: "fine-async-close", BatchSize: 2, MaxAttempts: 1, Acks: kafka.RequireOne, WriterTopic: "A", CloseAny: true, Fine: true, Async: true, LateWrite: true,
